@@ -20,6 +20,7 @@ import ZapVerif.Model.TransOpenX
 import ZapVerif.Model.TransLevelX
 import ZapVerif.Model.TransMessageX
 import ZapVerif.Model.TransDeriveX
+import ZapVerif.Model.TransCtorX
 import ZapVerif.Model.Entry
 import ZapVerif.Gen.TransProbe
 /-! `zvdrv CTR`: the interpreter side of the translator's differential test.  An op names a generated table and a
@@ -285,7 +286,17 @@ def messagePar (e : Env) : ZapVerif.TransMessage.Par :=
     check := fun _ l _ => if enabledOf e l then [.int 1] else [],
     sweeten := fun c => (ZapVerif.TransSweeten.sweepV sweetenPar 0 false c).fields }
 
+/-- the parameters of the constructor context (harness/cmd/zvh/trans_ctor.go): cores and enablers are the values
+    `[kind, level, enabled levels]` of `levelPar`; `LevelOf` is the scan proved about the source -/
+def ctorPar : ZapVerif.TransCtor.Par :=
+  { cen := levelPar.enabled, en := levelPar.enabled,
+    levelOf := fun e => match levelPar.asLeveled e with
+      | some lv => levelPar.leveledLevel lv
+      | none => (([-1, 0, 1, 2, 3, 4, 5] : List Int).find? (levelPar.enabled e)).getD 6,
+    nop := .list [.bytes "nop".toUTF8.toList] }
+
 def tables : List (String × (Env → Ctx)) := [
+  ("TransCtor", fun _ => ZapVerif.TransCtor.X ctorPar),
   ("TransMessage", fun e => ZapVerif.TransMessage.X (messagePar e)),
   ("TransLevel", fun _ => ZapVerif.TransLevel.X levelPar),
   ("TransProbe", fun _ => { ext := probeExt, funs := ZapVerif.Gen.TransProbe.funs }),
